@@ -180,7 +180,7 @@ def _euler_angles_haar_measure(resolution: Union[int, float], unique: bool) -> R
     half_steps = int(num_steps / 2)
 
     alpha = np.linspace(0, 2 * np.pi, num=num_steps, endpoint=False)
-    beta = np.arccos(np.linspace(1, -1, num=half_steps, endpoint=False))
+    beta = np.arccos(np.linspace(1, -1, num=half_steps + 1, endpoint=True))
     gamma = np.linspace(0, 2 * np.pi, num=num_steps, endpoint=False)
     q = np.array(np.meshgrid(alpha, beta, gamma)).T.reshape(-1, 3)
 
